@@ -575,7 +575,7 @@ func init() {
 		Rule: "each (operator tuple, operand kinds, quote style, parenthesis span, whitespace policy) is one case; oracle: the port's AST, canonicalised, equals " +
 			"the tree dictated by the precedence table (or both report an error, with the static error class compared); non-trivial when a tree is produced",
 		Assumptions: []string{
-			"unary minus is not ranked by the statement and is not generated",
+			"a sign is generated only in front of a variable or a number literal whose next operator is an infix one (the postfix operators bind tighter than the sign)",
 			"chains longer than 4 operators are enumerated without parentheses only (5: all operators, 6: one operator per binding level); longer ones are outside the bound",
 		},
 		Phases: []explore.Phase{
